@@ -211,9 +211,11 @@ func hotFunc(top []string, at string) string {
 func runAsm(t *testing.T, data []byte, plan simrt.ReaderPlan, tp *simrt.Tape, cfg gi.SimulatorConfig) *asmRun {
 	r := &asmRun{}
 	r.rd = simrt.NewReader(data, plan, tp)
-	// the budget grows with the input: a slower but linear reader must never
-	// look like a hang (2e6 ticks + 400 per delivered byte)
-	r.out = simrt.Run(t, simrt.Config{Tape: tp, MaxSteps: asmMaxSteps + 8*len(data), MaxTicks: asmMaxTicks + 400*int64(len(data))}, func() {
+	// the budgets grow with the input: a slower but linear reader, or a long
+	// program re-streamed by up to 13 FOR passes, must never look like a hang
+	// (2e6 ticks + 600 per delivered byte; 1.2e5 steps + 160 per delivered byte:
+	// 4 steps per token and pass, a token per 1.5 bytes at worst, 13 passes)
+	r.out = simrt.Run(t, simrt.Config{Tape: tp, MaxSteps: asmMaxSteps + 160*len(data), MaxTicks: asmMaxTicks + 600*int64(len(data))}, func() {
 		r.w, r.err = gi.CompileWarrior(r.rd, cfg)
 		r.returned = true
 	})
